@@ -22,13 +22,13 @@ CLAIMS = {
          "Bounds as coded in harness/.../generator/swagen/zz_verif_c01.go. Gate assumption: routes whose templates differ only in parameter names are excluded (kin-openapi validation rejects them: 'conflicting paths', so no document is emitted). "
          "Outside: go/packages loading itself, JSON encoding of the in-memory document.",
          "DESIGN.md 4 (C01)"),
- "C02": ("Generated routers (real templates, rendered by the CLI built from /repo for a fixture project, all five engines): (kernel, symbolic) for every route text of up to 2 segments (literal or {param}) with up to three leading slashes, doubled inner slashes and a trailing slash, "
-         "the generated toGinUrl/toEchoUrl/toMuxUrl/toChiUrl/toFiberUrl register exactly the path the spec documents (every slash run collapsed, leading slash; ':x' <-> '{x}'); (corpus) the registration table of each engine is in bijection with the fixture's 7 annotated methods (hidden one included) at the documented verb and path, "
+ "C02": ("Generated routers (real templates, rendered by the CLI built from /repo for a fixture project, all five engines): (kernel, symbolic) for every route text of up to 2 segments (literal or {param}) with up to three leading slashes, doubled inner slashes and a trailing slash, parameter names of a letter optionally followed by a letter, digit, hyphen or underscore, "
+         "the generated toGinUrl/toEchoUrl/toMuxUrl/toChiUrl/toFiberUrl register exactly the path the spec documents (every slash run collapsed, leading slash; ':x' <-> '{x}', no '{name}' left unconverted on gin/echo/fiber); (corpus) the registration table of each engine is in bijection with the fixture's 7 annotated methods (hidden one included) at the documented verb and path, "
          "and a valid request to each reaches that method of that controller and no other.",
          "Bounds as coded in harness-g/verifgen/cross/zz_verif_c02.go, zz_verif_routes.go. The project dimension is a fixed fixture (fixtures/stageg/project): Handlebars rendering cannot be executed symbolically. The generated code runs against stand-in framework packages (fixtures/stageg/stubs) that implement the documented behaviour of the accessors the templates call; the frameworks' own request matching is outside.",
          "DESIGN.md 4 (C02, stage G)"),
  "C03": ("For every engine, every fixture route and every behaviour of the user's authorization callback (approve / refuse / refuse with custom payload per call, symbolic), with a valid or an all-parameters-missing request: the callback is asked exactly the checks of the route's effective alternatives (own, else controller's, else configured default) in order, "
-         "the controller is invoked only after some alternative was approved in full, a refused request never reaches the controller and is answered with the last refusal's status (and custom payload); plus the generated authorize() on arbitrary lists of up to 2 alternatives x 2 checks.",
+         "the controller is invoked only after some alternative was approved in full, a refused request never reaches the controller and is answered with the last refusal's status (and custom payload); plus the generated authorize() on arbitrary lists of up to 2 alternatives x 2 checks; the same on a second generated project without default security whose controller carries no @Security (a method's own @Security still guards it, the unsecured sibling is served without any check).",
          "Bounds as coded in harness-g/verifgen/cross/zz_verif_c03.go. Same fixture/stub caveats as C02. User-supplied template extensions/middlewares are not part of the fixture.",
          "DESIGN.md 4 (C03, stage G)"),
  "C05": ("For every engine and 5 fixture routes covering path/query/header/form locations, int/uint/int64/int8/bool/string/[]string/enum/pointer/context parameters: for every symbolic request (presence bits, values of up to 2 (thorough 3) bytes over digits, signs and letters, plus numerals around 2^32 and 2^63) "
@@ -47,7 +47,7 @@ CLAIMS = {
  "C07": ("Emitter half: for a model list of two structs (one with up to 2 symbolic fields over 9 (thorough 11) type shapes incl. slices, maps, enum, alias, other struct, embedded struct, time, bytes; symbolic json tag and validate tag), an enum with 1-2 symbolic values and an alias, "
          "both GenerateModelsSpec produce exactly one component per model; properties are the JSON-visible fields with mapped type or $ref, required = fields validated as required, embedded structs via allOf, enum lists its constants, alias maps to its primitive; "
          "metamorphic non-interference: every other component is structurally identical whether or not the using struct carries usage-site validators; every $ref names an existing component; 3.0 and 3.1 components agree. "
-         "Front end: for a struct with two fields over 11 type shapes (named struct, pointer, slice, slice of slice, map, enum, alias, self reference, time.Time, []byte, string), used as body, element or return type, the components of both documents are exactly the types reachable from the route; properties are the JSON-visible fields (unexported and json:\"-\" fields are not), required lists the validated fields, the embedded struct appears via allOf, the enum lists its exported and unexported constants, the alias maps to string. "
+         "Front end: for a struct with two fields over 14 type shapes (named struct, pointer, slice, slice of slice, map, string/int enum, alias, self reference, time.Time, []byte, string, struct of another package and slice of pointers to it), used as body, element or return type, the components of both documents are exactly the types reachable from the route; properties are the JSON-visible fields (unexported and json:\"-\" fields are not), required lists the validated fields, the embedded struct appears via allOf, string and integer enums list their exported and unexported constants, the alias maps to string, a struct of another package and the enum it uses there are components too. "
          "Visitor half (enum values): for a hand-built go/types package with an enum type (string or int) and every subset of four constants (exported and unexported names) typed as the enum, another named type or the plain basic type, EnumVisitor.getEnumValueDefinitions returns exactly the constants of the enum's type with their declared values.",
          "Bounds as coded in harness/.../generator/swagen/zz_verif_c07.go. Outside: reachability closure over Go type graphs (go/types visitors; only the enum-constant collection is driven, on hand-built packages), json:\"-\" filtering (done by the struct visitor), RFC-7807 model injection (AppendErrorSchema is a literal).",
          "DESIGN.md 4 (C07)"),
@@ -67,6 +67,7 @@ CLAIMS = {
          "both emitters document exactly the non-context path/query/header parameters in signature order (name, location, required, schema), the JSON body or the urlencoded form object with its required entries, "
          "the success response with the value schema or no content, each error code with the error schema (RFC-7807 for plain error), and a description on every response; 3.0 and 3.1 agree (one recorded 3.0-only `default` response). "
          "(d) Front end: for a real method declaration with context, path, query/header, header and body parameters - every combination of pointer-ness, location, `validate:\"required\"`, grouped or separate declaration, four return shapes (value+error, error, string+error, value+custom error type), with or without @Response and @ErrorResponse - both documents carry the contract the property states (signature order, required rule, body requiredness, success code and schema, error schema, no context parameter). "
+         "(e) Front end, second shape: path parameter bound by name or by a hyphenated alias, query parameter of slice/enum/alias/int64/bool type under a wire-name alias, two form fields (pointer-ness and validate:required symbolic): wire names, schemas, one urlencoded object body, its required list, 204 without content. "
          "(c) Signature order: for 2-4 parameters under every grouping of the declaration (ordinals numbered as AstArbitrator.GetFuncParametersMeta numbers them, which collide for groups), ReceiverMeta.Reduce keeps the parameters in declaration order.",
          "Bounds as coded in harness/.../core/metadata/zz_verif_c06.go and generator/swagen/zz_verif_c06.go. Routes are assumed accepted (at most one body, never body with form; unique wire names per location). Outside: how TypeMeta is derived from Go types.",
          "DESIGN.md 4 (C06)"),
@@ -90,7 +91,7 @@ CLAIMS = {
          "Bounds as coded in harness/.../core/pipeline/zz_verif_c13.go (vh_C19_*). Outside: source files that change between analyses (FileVersion.HasChanged is file-system state).",
          "DESIGN.md 4 (C19)"),
  "C14": ("Crash freedom, decided by reachability of a panic on every path of the bound: both schema validation converters on every validation string of one rule (vocabulary or junk) with a symbolic value of up to 2 bytes on 6 field types incl. a $ref type; "
-         "both model emitters on a struct field whose tag is free text (5 prefixes x 0-3 symbolic bytes over letters, quote, comma, '=' x 5 suffixes: missing closing quotes, empty values, stray quotes); annotation parsing and validators through vh_C14_* wrappers; "
+         "the whole front end (parse, type-check, visitors, validators, reduction, both emitters) on 432 perturbed source files (see C10); both model emitters on a struct field whose tag is free text (5 prefixes x 0-3 symbolic bytes over letters, quote, comma, '=' x 5 suffixes: missing closing quotes, empty values, stray quotes); annotation parsing and validators through vh_C14_* wrappers; "
          "in addition every other harness of this suite treats a reachable panic in the code under test as a violation (FindConflicts, symbol graph operations, annotation parsing, validators, both emitters).",
          "Bounds as coded in harness/.../generator/swagen/zz_verif_c11.go (vh_C14_*). Outside: go/packages loading, visitors, Handlebars, json5, cobra; wall-clock bounds of the real CLI; loops are bounded by the engine's instruction budget (exhaustion is reported as inconclusive, never as success).",
          "DESIGN.md 4 (C14)"),
@@ -107,18 +108,19 @@ CLAIMS = {
  "C18": ("Range arithmetic: for every text of up to 5 units (ASCII incl. CR/LF, 2- and 3-byte UTF-8 sequences) and every rune-boundary offset, byteOffsetToLineCol equals a rune-counting reference; "
          "GetValueRange is start<=end, inside the comment's range and covers text equal to the value (or the whole comment when the value is absent), for symbolic start line/column in [0,65535]. "
          "Front end: for 5184 perturbed source files (see C10) every diagnostic Validate produces names the fixture file, has error severity, lies inside the file with start not after end, is not reported twice, and covers the text it is about (the invalid verb, the dangling @Path reference, the unbound {name}, the parameter declaration, the declaration line for return-shape rules), positions being those of a real parse with indentation and multibyte text. "
-         "One recorded finding (byte column of a comment's start when multibyte characters precede the comment on its line) is reported as KNOWN-FINDING.",
+         "The command's error text (GetDiagnosticsWithSeverity + DiagnosticsToError, as Run builds it) mentions every error diagnostic. "
+         "Two recorded findings (byte column of a comment's start when multibyte characters precede the comment on its line; the error text repeats entities) are reported as KNOWN-FINDING.",
          "Bounds as coded in harness/.../core/annotations/zz_verif_c18.go and generator/swagen/zz_verif_front.go. Outside: several controllers per file and several files in the diagnostics harness, the command's error text.",
          "DESIGN.md 4 (C18)"),
  "C17": ("Every history of up to 3 public operations (add node of two kinds, add edge, remove edge by kind or all kinds, remove node) with symbolic operands over 3 node ids, 2 file versions and 2 edge kinds, "
          "started from the empty graph: afterwards Exists/Get/GetEdges (outgoing iff incoming, each edge once)/Children/Parents/Descendants/FindByKind of the real SymbolGraph equal a slice-based set-of-nodes/set-of-edges model "
-         "(cascade removal as a fixpoint, version replacement). Thorough: 4 operations.",
+         "(cascade removal as a fixpoint, version replacement); the same for every 2-operation history continuing from three prepared states (a node with an edge to a key that was never added, a chain of three nodes, two nodes with edges of two kinds in both directions). Thorough: 4 operations, 3 from the prepared states.",
          "Bounds as coded in harness/.../graphs/symboldg/zz_verif_c17.go. Histories are bounded (no inductive step yet); AddStruct/AddEnum/AddField composite insertions are not yet driven.",
          "DESIGN.md 4 (C17)"),
  "C20": ("Honoured-in-output kernel: for every permission string up to the stated length, if the configuration validator's own pattern (read from the struct tag, matched by the real regexp package executed symbolically) accepts it, "
          "getOutputFileMod returns exactly its octal value (0644 for empty); PermissionStringToFileMod errors iff the string is not an octal numeral within 0o7777. "
          "Security schemes (apiKey and oauth2 with symbolic flows/scopes) are copied into both documents flow by flow. Info (title, description, version, terms, optional license and contact, symbolic text) and the base URL are read back from the bytes GenerateSpec returns for 3.0 and 3.1. "
-         "Glob filter (engine-only): loadPackagesFiltered registers exactly the glob-matched files of the loaded packages for every subset of 3 files in 2 packages, and nothing when the load fails.",
+         "Glob filter (engine-only): loadPackagesFiltered registers exactly the glob-matched files of the loaded packages for every subset of 3 files in 2 packages, and nothing when the load fails; a package loaded on demand afterwards (GetPackage/GetPackages, to resolve a type) is served and its files map to it, but none of them becomes a source file.",
          "Bounds as coded in harness/.../generator/routes/zz_verif_c20.go. Stand-ins: packages.Load (returns the harness's packages or fails), the 3.0 validator and the 3.1 renderer/validator (generations they refuse are discarded; the 3.1 renderer stand-in writes the document's own version/info/servers). Outside: json5 decoding and go-playground validator semantics (reflection), doublestar globbing, file modes applied by the OS, engine/package-name selection in the templates.",
          "DESIGN.md 4 (C20)"),
 }
